@@ -492,6 +492,11 @@ func (x *FnExec) unop(in *ssa.UnOp, st *State) Val {
 		}
 		return IntV(x.wrap(in.Type(), Neg(a.T)))
 	case token.MUL: // load
+		if g, ok := in.X.(*ssa.Global); ok {
+			if lit, ok := x.globalLiteral(g, st); ok {
+				return IntV(lit)
+			}
+		}
 		x.derefCheck(st, a.T, "load")
 		el := in.X.Type().Underlying().(*types.Pointer).Elem()
 		return x.loadL(st, a.T, el, x.leavesOfPtr(in.X, el))
@@ -800,6 +805,11 @@ func (x *FnExec) finish(args []Val) {
 			x.oblige(name, "post", ens.Src, r.st.reach, env.EvalBool(ens.E))
 			x.obls[len(x.obls)-1].Clause = ens.E
 		}
+		if con.ModAll {
+			if invs := x.globalInvs(env); len(invs) > 0 {
+				x.oblige("globals_preserved."+r.what, "frame", "invariants of the package variables used hold again at exit (contract has modifies *)", r.st.reach, And(invs...))
+			}
+		}
 		if !con.ModAll {
 			x.frameObligation("frame."+r.what, r.st.reach, x.entry.heaps, r.st.heaps, con.Modifies, x.envFor(con, fn, args, nil, x.entry.heaps, x.entry.heaps, x.entry.alloc), x.entry.alloc, true)
 		}
@@ -949,4 +959,44 @@ func (x *FnExec) frameObligation(name string, reach Term, before, after map[stri
 		src = "modifies " + strings.Join(ss, ", ")
 	}
 	x.oblige(name, "frame", src+" (every other pre-existing location unchanged)", reach, And(goals...))
+}
+
+// globalLiteral: a package-level integer variable whose (assumed, immutable) invariant is
+// NAME == <literal> reads as that literal while the function has not written its heap.
+func (x *FnExec) globalLiteral(g *ssa.Global, st *State) (Term, bool) {
+	if g.Pkg == nil {
+		return "", false
+	}
+	el := g.Type().(*types.Pointer).Elem()
+	if _, ok := intRangeOK(el); !ok {
+		return "", false
+	}
+	leaves := x.mem.Leaves(el)
+	if len(leaves) != 1 {
+		return "", false
+	}
+	if _, written := st.heaps[leaves[0].Key]; written {
+		return "", false
+	}
+	for _, spec := range x.eng.cs.Globals[g.Pkg.Pkg.Path()] {
+		if spec.Name != g.Name() || !spec.Immutable {
+			continue
+		}
+		b, ok := spec.Inv.E.(*CBinary)
+		if !ok || b.Op != "==" {
+			continue
+		}
+		id, ok := b.X.(*CIdent)
+		if !ok || id.Name != g.Name() {
+			continue
+		}
+		env := &Env{x: x, vars: map[string]TVal{}, heaps: map[string]Term{}, old: map[string]Term{}, alloc0: "0", errs: &x.errs}
+		v := env.Eval(b.Y)
+		if !v.V.IsComp() && !v.V.B {
+			if _, isNum := isNumeral(v.V.T); isNum {
+				return v.V.T, true
+			}
+		}
+	}
+	return "", false
 }
